@@ -54,10 +54,10 @@ Cand(k) ==
     [] k = "len" -> IF Open THEN {Op("len", 0, 0)} ELSE {}
     [] k = "iter" -> IF Open THEN {Op("iter", 0, 0)} ELSE {}
     [] k = "getflight" -> {Op("getflight", i, 0) : i \in {j \in Ids : FileBacked}}
-    [] k = "addbad" -> {Op("addbad", r, 0) : r \in {q \in 1..3 : Writable
-                          /\ (q = 2 => added # <<>>) /\ (q = 3 => indexable # "undecided")}}
+    [] k = "addbad" -> {Op("addbad", r, 0) : r \in {q \in 1..4 : Writable
+                          /\ (q \in {2, 4} => added # <<>>) /\ (q = 3 => indexable # "undecided")}}
     [] k = "addro" -> IF mode = "read" THEN {Op("addro", 0, 0)} ELSE {}
-KindName(q) == CASE q = 1 -> "missing_required" [] q = 2 -> "fieldset_mismatch" [] q = 3 -> "id_inconsistent"
+KindName(q) == CASE q = 1 -> "missing_required" [] q = 2 -> "fieldset_mismatch" [] q = 3 -> "id_inconsistent" [] q = 4 -> "fieldset_redefined"
 Do(d) ==
   CASE d.k = "add" -> Add(d.a, d.b)
     [] d.k = "get" -> Get(d.a)
